@@ -40,18 +40,21 @@ PrefixSetDef == [ps1 |-> {"192.0.2.0/24", "2001:db8::/32"}, ps2 |-> {"10.0.0.0/8
 Names == {"example.com", "www.example.com", "notexample.com", "a.ads.example.net", "other.test"}
 MatchTable == {<<"domain:www.example.com", "www.example.com">>,
                <<"suffix:example.com", "example.com">>, <<"suffix:example.com", "www.example.com">>,
+               <<"suffix:www.example.com", "www.example.com">>,
                <<"keyword:ads", "a.ads.example.net">>,
                <<"suffix:example.net", "a.ads.example.net">>,
                <<"domain:other.test", "other.test">>,
                <<"keyword:example", "example.com">>, <<"keyword:example", "www.example.com">>,
                <<"keyword:example", "notexample.com">>, <<"keyword:example", "a.ads.example.net">>}
-Rules == {"domain:www.example.com", "suffix:example.com", "keyword:ads", "suffix:example.net",
+Rules == {"domain:www.example.com", "suffix:example.com", "suffix:www.example.com", "keyword:ads", "suffix:example.net",
             "domain:other.test", "keyword:example"}
 RuleMatches(r, n) == <<r, n>> \in MatchTable
 \* padD / padS filler rules ("domain:padN.invalid", "suffix:padN.invalid") push the set over the
 \* linear-matcher thresholds (map matcher above MaxLinearDomains, trie above MaxLinearSuffixes)
 DomainSetDef ==
-    [ds1 |-> [rules |-> {"suffix:example.com"}, padD |-> 0, padS |-> 0],
+    \* ds1 holds a suffix and an extension of it: the file lists them in a seeded order, so the trie sees both
+    \* insertion orders (a shorter suffix inserted after a longer one must replace it)
+    [ds1 |-> [rules |-> {"suffix:example.com", "suffix:www.example.com"}, padD |-> 0, padS |-> 0],
      ds2 |-> [rules |-> {"domain:www.example.com", "keyword:ads"}, padD |-> 0, padS |-> 0],
      dsbig |-> [rules |-> {"domain:other.test", "suffix:example.net"},
                 padD |-> MaxLinearDomains + 1, padS |-> MaxLinearSuffixes + 1],
